@@ -322,3 +322,224 @@ _run_base = run
 def run(chk):  # noqa: F811
     _run_base(chk)
     r5_mechanism_typestate(chk)
+
+
+# ---------------------------------------------------------------------------
+# R4: NULL is negotiable only when no security mechanism is configured
+# ---------------------------------------------------------------------------
+def _fnptr_target(body, o):
+    """the function/closure a fn-pointer operand was coerced from: ('fn', path) | ('closure', path) | None"""
+    org = body.value_origin(o)
+    if org[0] == "other" and isinstance(org[1], dict) and org[1].get("k") == "cast":
+        o2 = org[1]["o"]
+        if o2["c"] == "const" and "fn" in o2:
+            return ("fn", o2["fn"]["path"])
+        org2 = body.value_origin(o2)
+        if org2[0] == "agg" and org2[1]["r"].get("ak") == "closure":
+            return ("closure", org2[1]["r"].get("def"))
+        if org2[0] == "const" and "fn" in org2[1]:
+            return ("fn", org2[1]["fn"]["path"])
+    if org[0] == "const" and "fn" in org[1]:
+        return ("fn", org[1]["fn"]["path"])
+    return None
+
+
+def _bool_support(body, o, depth=0):
+    """fields a boolean value is the disjunction of: (set of place paths, may_be_const_true, ok)"""
+    if o["c"] == "const":
+        v = o.get("int")
+        return (set(), v == 1, v in (0, 1))
+    if o["c"] not in ("copy", "move") or depth > 8:
+        return (set(), False, False)
+    p = o["p"]
+    if p["pr"]:
+        return ({body.place_path(p)}, False, True)
+    ds = body.whole_defs(p["l"])
+    if len(ds) != 1 or ds[0][0] != "assign":
+        return (set(), False, False)
+    rv = ds[0][3]["r"]
+    if rv["k"] == "use":
+        return _bool_support(body, rv["o"], depth + 1)
+    if rv["k"] == "binop" and rv["op"] == "BitOr":
+        a = _bool_support(body, rv["a"], depth + 1)
+        b = _bool_support(body, rv["b"], depth + 1)
+        return (a[0] | b[0], a[1] or b[1], a[2] and b[2])
+    return (set(), False, False)
+
+
+def r4_null_only_without_security(chk):
+    r = chk.rule("R4", "NULL is negotiable only when no security mechanism is configured", "T9 table agreement + T3 guarded-by",
+                 "KNOWN_MECHANISMS: the NULL row's is_locally_enabled is `!cfg.security_enabled`, every other row's is `cfg.use_<m>` with initializer initialize_<m>; "
+                 "ZmtpEngineConfig::from(&SocketOptions) makes security_enabled the disjunction of every use_<m> source flag; "
+                 "negotiate_security_mechanism calls a row's initializer only on the true edges of name equality and of that row's is_locally_enabled(local_config)")
+    for cfg, prog in chk.configs():
+        rows = []
+        for tb in prog.find_bodies(r"^security::KNOWN_MECHANISMS::promoted\[\d+\]$"):
+            for b, i, st in tb.aggregates():
+                if st["r"].get("adt", "").endswith("security::KnownMechanismDescriptor"):
+                    rows.append((tb, b, st))
+        if not rows:
+            r.bad(cfg, "KNOWN_MECHANISMS|table found", "core/src/security/mod.rs", "no KnownMechanismDescriptor rows found in the promoted constant of security::KNOWN_MECHANISMS (anchor missing)")
+            continue
+        adt = prog.facts.adts.get("security::KnownMechanismDescriptor")
+        fnames = [f["name"] for f in adt["variants"][0]["fields"]] if adt else []
+        use_fields = {}
+        null_rows = 0
+        for tb, b, st in rows:
+            ops = dict(zip(fnames, st["r"]["ops"]))
+            nm = tb.const_name(ops.get("name_static_bytes", {})) or ""
+            init = _fnptr_target(tb, ops["initializer"]) if "initializer" in ops else None
+            pred = _fnptr_target(tb, ops["is_locally_enabled"]) if "is_locally_enabled" in ops else None
+            m = re.search(r"security::(\w+)::(?:\w+::)*(\w+)::NAME_BYTES$", nm)
+            mech = m.group(1) if m else "?"
+            key = "KNOWN_MECHANISMS[%s]|predicate and initializer agree with the row" % mech
+            pb = prog.body(pred[1]) if pred else None
+            if not m or init is None or pb is None:
+                r.bad(cfg, key, where(tb, b), "row not understood (name=%s initializer=%s predicate=%s)" % (nm, init, pred))
+                continue
+            # what the predicate returns
+            rets = pb.whole_defs(0)
+            shape = None
+            if len(rets) == 1 and rets[0][0] == "assign" and not pb.calls:
+                rv = rets[0][3]["r"]
+                if rv["k"] == "unop" and rv["op"] == "Not":
+                    s = _bool_support(pb, rv["o"])
+                    if s[2] and len(s[0]) == 1 and not s[1]:
+                        shape = ("not", next(iter(s[0])))
+                elif rv["k"] == "use":
+                    s = _bool_support(pb, rv["o"])
+                    if s[2] and len(s[0]) == 1 and not s[1]:
+                        shape = ("is", next(iter(s[0])))
+            if mech == "null":
+                null_rows += 1
+                if shape and shape[0] == "not" and shape[1].endswith(".security_enabled") and init[1].endswith("::initialize_null"):
+                    r.ok(cfg, key, where(tb, b), "NULL: enabled = !cfg.security_enabled, initializer initialize_null")
+                else:
+                    r.bad(cfg, key, where(pb, 0), "the NULL row must be enabled exactly when `!cfg.security_enabled` (found %s, initializer %s): NULL could be negotiated although a mechanism is configured" % (shape, init[1]))
+            else:
+                want = ".use_" + mech
+                if shape and shape[0] == "is" and shape[1].endswith(want) and init[1].endswith("::initialize_" + mech):
+                    r.ok(cfg, key, where(tb, b), "%s: enabled = cfg.use_%s, initializer initialize_%s" % (mech, mech, mech))
+                    use_fields["use_" + mech] = None
+                else:
+                    r.bad(cfg, key, where(pb, 0), "row %s: predicate %s / initializer %s do not belong to this mechanism" % (mech, shape, init[1]))
+        if null_rows != 1:
+            r.bad(cfg, "KNOWN_MECHANISMS|exactly one NULL row", "core/src/security/mod.rs", "%d NULL rows" % null_rows)
+        # ---- the config: security_enabled covers every use_<m> source
+        fb = prog.body("<socket::options::ZmtpEngineConfig as std::convert::From<&socket::options::SocketOptions>>::from")
+        key = "ZmtpEngineConfig::from|security_enabled is the disjunction of every mechanism flag"
+        if fb is None:
+            r.bad(cfg, key, "core/src/socket/options.rs", "From<&SocketOptions> for ZmtpEngineConfig not found (anchor missing)")
+        else:
+            cadt = prog.facts.adts.get("socket::options::ZmtpEngineConfig")
+            cf = [f["name"] for f in cadt["variants"][0]["fields"]] if cadt else []
+            aggs = [(b, st) for b, i, st in fb.aggregates() if st["r"].get("adt", "").endswith("options::ZmtpEngineConfig")]
+            if len(aggs) != 1:
+                r.bad(cfg, key, where(fb, 0), "expected one ZmtpEngineConfig literal, found %d" % len(aggs))
+            else:
+                ab, ast = aggs[0]
+                ops = dict(zip(cf, ast["r"]["ops"]))
+                srcs = {}
+                bad = []
+                for uf in [f for f in cf if f.startswith("use_")]:
+                    s = _bool_support(fb, ops[uf])
+                    if s[2] and len(s[0]) == 1 and not s[1]:
+                        srcs[uf] = next(iter(s[0]))
+                    else:
+                        bad.append("%s is not a plain copy of one option flag" % uf)
+                for uf in use_fields:
+                    if uf not in srcs:
+                        bad.append("the table consults cfg.%s but the config literal has no such flag" % uf)
+                E = set(v for k_, v in srcs.items() if k_ in use_fields)
+                se = ops.get("security_enabled")
+                if se is None:
+                    bad.append("no security_enabled field")
+                else:
+                    # every definition of the value: its disjuncts plus the flags known false on the way there must cover E
+                    defs = []
+                    if se["c"] in ("copy", "move") and not se["p"]["pr"]:
+                        l = se["p"]["l"]
+                        ds = fb.whole_defs(l)
+                        while len(ds) == 1 and ds[0][0] == "assign" and ds[0][3]["r"]["k"] == "use" and ds[0][3]["r"]["o"]["c"] in ("copy", "move") and not ds[0][3]["r"]["o"]["p"]["pr"]:
+                            l = ds[0][3]["r"]["o"]["p"]["l"]
+                            ds = fb.whole_defs(l)
+                        for d in ds:
+                            if d[0] != "assign":
+                                bad.append("security_enabled is computed by a call (not understood)")
+                                continue
+                            rv = d[3]["r"]
+                            s = _bool_support(fb, rv["o"]) if rv["k"] == "use" else (_bool_support(fb, {"c": "copy", "p": d[3]["p"]}) if rv["k"] == "binop" else (set(), False, False))
+                            if rv["k"] == "binop":
+                                a = _bool_support(fb, rv["a"])
+                                b2 = _bool_support(fb, rv["b"])
+                                s = (a[0] | b2[0], a[1] or b2[1], a[2] and b2[2] and rv["op"] == "BitOr")
+                            if not s[2]:
+                                bad.append("a definition of security_enabled is not a disjunction of option flags")
+                                continue
+                            if s[1]:
+                                continue  # constant true: NULL is refused, the safe side
+                            known_false = set()
+                            for g in fb.guards(d[1], select_aware=False):
+                                if g.atom[0] == "place" and g.truth is False:
+                                    known_false.add(g.atom[1])
+                                elif g.atom[0] == "rvalue" and g.atom[1].get("k") == "binop" and g.atom[1].get("op") == "BitOr" and g.truth is False:
+                                    for side in (g.atom[1]["a"], g.atom[1]["b"]):
+                                        ss = _bool_support(fb, side)
+                                        if ss[2]:
+                                            known_false |= ss[0]
+                            missing = E - s[0] - known_false
+                            if missing:
+                                bad.append("security_enabled can be false while %s is set" % ", ".join(sorted(missing)))
+                    else:
+                        s = _bool_support(fb, se)
+                        if not s[2] or (not s[1] and E - s[0]):
+                            bad.append("security_enabled does not cover %s" % ", ".join(sorted(E - s[0])))
+                if bad:
+                    r.bad(cfg, key, where(fb, ab), "; ".join(bad) + ": with that mechanism enabled the NULL row still reports itself enabled, so a peer proposing NULL gets an unauthenticated session")
+                else:
+                    r.ok(cfg, key, where(fb, ab), "flags: %s" % ", ".join(sorted(E)))
+        # ---- negotiation uses the row's own predicate and the peer's proposed name
+        nb = prog.body("security::negotiate_security_mechanism")
+        key = "negotiate_security_mechanism|initializer only for a matching, locally enabled row"
+        if nb is None:
+            r.bad(cfg, key, "core/src/security/mod.rs", "negotiate_security_mechanism not found (anchor missing)")
+            continue
+        inits = [c for c in nb.calls if c.kind != "def" and nb.opath(c.t["f"]["o"]).endswith(".initializer")] if True else []
+        if len(inits) != 1:
+            r.bad(cfg, key, where(nb, 0), "expected one call through `.initializer`, found %d" % len(inits))
+            continue
+        ic = inits[0]
+        row = nb.opath(ic.t["f"]["o"])[: -len(".initializer")]
+        en = nm_ok = False
+        for g in nb.guards(ic.blk, select_aware=False):
+            if g.atom[0] != "call" or g.truth is not True:
+                continue
+            gc = g.atom[1]
+            if gc.kind != "def" and nb.opath(gc.t["f"]["o"]) == row + ".is_locally_enabled" and gc.args and "local_config" in nb.provenance(gc.args[0]):
+                en = True
+            if gc.name == "eq":
+                pv = " ".join(nb.provenance(a) for a in gc.args)
+                if row + ".name_static_bytes" in pv and "peer_greeting.mechanism" in pv:
+                    nm_ok = True
+        # every Ok return comes from that call
+        other_ok = []
+        for d in nb.whole_defs(0):
+            if d[0] == "call" and d[1] == ic.blk:
+                continue
+            if d[0] == "assign" and d[3]["r"]["k"] == "agg" and d[3]["r"].get("variant") == "Err":
+                continue
+            other_ok.append(d)
+        if en and nm_ok and not other_ok:
+            r.ok(cfg, key, where(nb, ic.blk), "guards: name_static_bytes == peer proposal && (row.is_locally_enabled)(local_config)")
+        else:
+            why = ([] if nm_ok else ["the peer's proposed name equals the row's name"]) + ([] if en else ["the row's own is_locally_enabled(local_config) returned true"]) + (["(and a second success return exists)"] if other_ok else [])
+            r.bad(cfg, key, where(nb, ic.blk), "a mechanism is instantiated without checking that %s: a locally disabled mechanism (NULL while security is configured) could be negotiated" % " and ".join(why))
+        r.require(cfg, {"default": 3, "noplain": 3, "full": 6, "full-linux": 6}.get(cfg, 3), "table rows / config / negotiation obligations")
+
+
+_run_r5 = run
+
+
+def run(chk):  # noqa: F811
+    _run_r5(chk)
+    r4_null_only_without_security(chk)
